@@ -537,7 +537,7 @@ func checkAlgAccessor(r *Report, rule string, acc *ssa.Function) {
 	ei := errIndex(acc)
 	np := 0
 	exact := map[string]bool{"Algorithm": true, "int": true, "int8": true, "int16": true, "int32": true, "int64": true, "uint8": true, "uint16": true, "uint32": true}
-	for _, p := range P.deepPaths(acc) {
+	for _, p := range P.inlineViews(acc, nil) {
 		if !p.feasible() {
 			continue
 		}
